@@ -106,12 +106,15 @@ def c31_tables():
             "names": [str(n) for n in br.flavor_basis_names],
         }
     ]
-    for qed, labels, pids, rot, keys, amap in (
+    pairs = lambda t: [[int(a), int(b)] for a, b in t]  # noqa: E731
+    for qed, labels, pids, rot, keys, amap, groups in (
         (False, br.evol_basis, br.evol_basis_pids, br.rotate_flavor_to_evolution,
-         br.full_labels, br.map_ad_to_evolution),
+         br.full_labels, br.map_ad_to_evolution,
+         (br.singlet_labels, (), br.non_singlet_labels)),
         (True, br.unified_evol_basis, br.unified_evol_basis_pids,
          br.rotate_flavor_to_unified_evolution, br.full_unified_labels,
-         br.map_ad_to_unified_evolution),
+         br.map_ad_to_unified_evolution,
+         (br.singlet_unified_labels, br.valence_unified_labels, br.non_singlet_unified_labels)),
     ):
         recs.append(
             {
@@ -126,13 +129,23 @@ def c31_tables():
             {
                 "ev": "sectors",
                 "qed": qed,
-                "keys": [[int(a), int(b)] for a, b in keys],
+                "keys": pairs(keys),
+                "singlet": pairs(groups[0]),
+                "valence": pairs(groups[1]),
+                "nonsinglet": pairs(groups[2]),
                 "entries": [
                     {"lab": [int(k[0]), int(k[1])], "elems": [el.split(".") for el in v]}
                     for k, v in amap.items()
                 ],
             }
         )
+    for nf in NFS:
+        rec = {"ev": "intrinsic-labels", "nf": nf, "qed": True, "err": "", "labels": []}
+        try:
+            rec["labels"] = [str(x) for x in br.intrinsic_unified_evol_labels(nf)]
+        except Exception as ex:  # noqa: BLE001
+            rec["err"] = exc_name(ex)
+        recs.append(rec)
     return recs
 
 
